@@ -318,7 +318,8 @@ def _m(name, type_, arr=None, n=None, sizer=None, opt=False):
 
 SHAPES = ["dyn-tail-optional", "nested-dyn-first", "nested-dyn-middle", "block-align-decreasing",
           "union-arm-struct-with-optional", "optional-wide-and-enum", "ext-arrays-split", "greedy-of-dynamic-structs",
-          "limited-of-struct-with-optional", "nested-dyn-then-optional"]
+          "limited-of-struct-with-optional", "nested-dyn-then-optional", "array-of-unions", "union-in-union",
+          "typedef-enum-arrays", "nested-limited-composites"]
 
 
 def _gen_shape(tape, env):
@@ -366,6 +367,41 @@ def _gen_shape(tape, env):
     elif k == "greedy-of-dynamic-structs":
         el = _add_struct(env, [_m("f1", small, "dynamic"), _m("f2", "u32")], DYNAMIC)
         _add_struct(env, [_m("f1", "i8"), _m("f2", small2, "ext", sizer="f1"), _m("f3", el, "greedy")], UNLIMITED)
+    elif k in ("array-of-unions", "union-in-union"):
+        inner = _add_struct(env, [_m("f1", small), _m("f2", "u8", "fixed", 2)], FIXED)
+        u = env.fresh("U")
+        env.defs.append({"k": "union", "name": u, "arms": [{"name": "a1", "type": "u8", "disc": 1},
+                                                            {"name": "a2", "type": inner, "disc": 2},
+                                                            {"name": "a3", "type": wide, "disc": 3}]})
+        env.types[u] = {"cat": "union", "stiff": FIXED}
+        env.order.append(u)
+        if k == "array-of-unions":
+            arrs = [_m("f2", u, "fixed", 2), _m("f3", u, "limited", 2)]
+            if "arr_dynamic" not in forbid:
+                arrs.insert(0, _m("f1", u, "dynamic"))
+            _add_struct(env, arrs + [_m("f4", "u8")], DYNAMIC if "arr_dynamic" not in forbid else FIXED)
+        else:
+            u2 = env.fresh("U")
+            env.defs.append({"k": "union", "name": u2, "arms": [{"name": "a1", "type": u, "disc": 0},
+                                                                 {"name": "a2", "type": "u32", "disc": 5}]})
+            env.types[u2] = {"cat": "union", "stiff": FIXED}
+            env.order.append(u2)
+            _add_struct(env, [_m("f1", u2), _m("f2", u2, opt=True), _m("f3", small)], FIXED)
+    elif k == "typedef-enum-arrays":
+        e = env.fresh("E")
+        env.defs.append({"k": "enum", "name": e, "members": [["%s_0" % e, 1 + tape.draw(3)], ["%s_1" % e, 0], ["%s_2" % e, 7]]})
+        env.types[e] = {"cat": "enum", "stiff": FIXED}
+        env.order.append(e)
+        t = env.fresh("T")
+        env.defs.append({"k": "typedef", "name": t, "type": e})
+        env.types[t] = {"cat": "enum", "stiff": FIXED}
+        env.order.append(t)
+        _add_struct(env, [_m("f1", "u8"), _m("f2", t, "fixed", 2), _m("f3", t, opt=True), _m("f4", cnt),
+                          _m("f5", t, "ext", sizer="f4")], DYNAMIC)
+    elif k == "nested-limited-composites":
+        inner = _add_struct(env, [_m("f1", wide)], FIXED)
+        mid = _add_struct(env, [_m("f1", inner, "limited", 3), _m("f2", small)], FIXED)
+        _add_struct(env, [_m("f1", cnt), _m("f2", mid, "ext", sizer="f1"), _m("f3", mid), _m("f4", mid, opt=True)], DYNAMIC)
     elif k == "limited-of-struct-with-optional":
         item = _add_struct(env, [_m("f1", small, opt=True), _m("f2", "u8")], FIXED)
         _add_struct(env, [_m("f1", "u8"), _m("f2", item, "limited", 2), _m("f3", item, "fixed", 2), _m("f4", small)], FIXED)
